@@ -612,7 +612,8 @@ def task_range(rng, doc):
     t["type"] = ty
     if ty == "INT":
         t["range"] = rng.choice([[1, "2", " 3 "], [1.5], ["1.5"], [True], ["x"], ["{{Param.Nope}}"], [None], [[1]], "1-3", "5-3", "1-2:0", "1-10:2,12-20:2", "1-3,3-5", "", " ", "x",
-                                 "1 - 3", "{{RawParam.X}}-5", [], "1_0", ["1_0"], "٣", 5, [2 ** 40]])
+                                 "1 - 3", "{{RawParam.X}}-5", [], "1_0", ["1_0"], "٣", 5, [2 ** 40],
+                                 "١-٣", "１-5", "1-٣", "1-9:٢", "١", "١,٢", "-١"])
     elif ty == "FLOAT":
         t["range"] = rng.choice([[1, 1.5, "2.5"], ["NaN"], ["Infinity"], ["abc"], [True], ["1e2"], [" 1.5 "], [None], "1-3", [], ["{{Param.Nope}}"], ["1_0.5"]])
     else:
@@ -636,6 +637,13 @@ def combination(rng, doc):
             a + " *", "* " + a, a + " " + b, "(" + a + ",)", "(" + a + ", " + b, star + "\t", star.replace(" ", "  "), star.replace(" * ", "*"), star + " + x", "",
             star + " " * max(0, 1280 - len(star)), star + " " * max(0, 1281 - len(star)), "é", a.lower() if a.lower() != a else a.upper()]
     ps["combination"] = rng.choice(opts)
+    if rng.random() < 0.12:
+        # a parameter left out of the expression whose name is part of another one's that is there
+        tps = ps["taskParameterDefinitions"]
+        longer = rng.choice([a + "Step", "X" + a, a + a, "_" + a + "_"])
+        if longer not in names and len(longer) <= 64:
+            tps.append({"name": longer, "type": "INT", "range": [1, 2]})
+            ps["combination"] = " * ".join(names[1:] + [longer])
     return True
 
 
@@ -674,9 +682,12 @@ def attribute_req(rng, doc):
         pr = ensure_param(rng, doc, "STRING")
         if pr is not None:
             name = rng.choice(["attr.{{Param.%s}}", "{{Param.%s}}", "attr.worker.{{ RawParam.%s }}", "vv:attr.{{Param.%s}}.x"]) % pr["name"]
+    if rng.random() < 0.15:
+        # a standard attribute under another spelling of its name: the rules on its values are the standard one's
+        name = rng.choice(["ATTR.WORKER.OS.FAMILY", "Attr.Worker.Os.Family", "attr.worker.OS.family", "ATTR.WORKER.CPU.ARCH", "attr.Worker.Cpu.Arch", "vv:attr.worker.os.family"])
     a = {"name": name}
     vals = rng.choice([["not a valid value!"], ["1abc"], ["caf\u00e9"], ["ok", "a" * 101], ["ok_1"], ["{{Param.Nope}}"], ["a.b"]]) if rng.random() < 0.2 else None
-    vals = vals or rng.choice([["linux"], ["linux", "windows"], ["beos"], ["x86_64"], ["v1"], ["9x"], ["a-b_c"], ["a" * 100], ["a" * 101], [""], ["{{Param.Nope}}"], [], ["v"] * 50, ["v"] * 51, ["Linux"], ["a b"]])
+    vals = vals or rng.choice([["linux"], ["linux", "windows"], ["beos"], ["solaris"], ["macos", "plan9"], ["x86_64"], ["arm64"], ["sparc"], ["v1"], ["9x"], ["a-b_c"], ["a" * 100], ["a" * 101], [""], ["{{Param.Nope}}"], [], ["v"] * 50, ["v"] * 51, ["Linux"], ["a b"]])
     k = rng.random()
     if k < 0.4:
         a["anyOf"] = vals
